@@ -391,7 +391,14 @@ func DelStaleCheckpoint(cli client.Redis, checkpointName string, runId string, b
 			return len(dbs), deleted, fmt.Errorf("select db error : err(%w), db(%d)", err, db)
 		}
 
-		if _, err := cli.Do("hdel", checkpointName, cpi.RunIdKey(), cpi.OffsetKey(), cpi.VersionKey(), cpi.MTimeKey()); err != nil {
+		fields := []interface{}{checkpointName, cpi.RunIdKey(), cpi.OffsetKey(), cpi.VersionKey(), cpi.MTimeKey()}
+		if exceptNewest {
+			// The id is still reported by a source: a running replay may come back to this
+			// database and then writes only the offset field, so keep the run id and version
+			// fields; without an offset field the entry is no position for GetCheckpoint.
+			fields = []interface{}{checkpointName, cpi.OffsetKey(), cpi.MTimeKey()}
+		}
+		if _, err := cli.Do("hdel", fields...); err != nil {
 			return len(dbs), deleted, err
 		} else {
 			deleted++
